@@ -106,43 +106,41 @@ def me3_reduced(ctx, rep):
     R = "ME3"
     A = ctx.A
     P = _pipe(ctx)
+    G = P.G
     ms = P.ev.get("METRIC:action_reduced", [])
     red = P.ev.get("REDUCE", [])
     if not rep.exact(R, "action_reduced sites", len(ms), 1) or len(red) != 1:
         return
     k, s = ms[0]
     rk, rs = red[0]
-    G = P.G
-    rep.check(s.body.path == rs.body.path, R, "counted-with-the-reducers", s.where, "counted in the function that runs the reducers", "counted in %s" % short(s.body.path))
-    if s.body.path != rs.body.path:
+    M = {k}
+    # once per pass at most, never inside the reducer loop
+    rep.check(k not in G.reach_after([k], avoid=P.recv), R, "once-per-action", s.where, "action_reduced at most once per pass (not once per reducer)", "action_reduced can be called several times per pass")
+    # after the reducers: no reducer call can follow it within the pass
+    rep.check(rk not in G.reach_after([k], avoid=P.recv), R, "after-the-reducer-loop", s.where, "counted after the reducers ran", "a reducer can still run after the count")
+    # the veto flag (cleared by before_reduce DoneAction) guards it exactly like the reducers
+    pf = getattr(ctx, "_phase_flags", None)
+    if pf is None or "before_reduce" not in pf:
+        from rules.mw import mw_table
+        from mirq.report import Report
+        mw_table(ctx, Report("tmp"))
+        pf = getattr(ctx, "_phase_flags", {})
+    if "before_reduce" not in pf:
+        rep.anchor_missing(R, "veto flag of before_reduce")
         return
-    body = s.body
-    cfg = ctx.prog.cfg(body)
-    lp = _loop_of(cfg, rs.bb)
-    rep.check(lp is not None and s.bb not in lp[1] and not cfg.in_cycle(s.bb), R, "once-after-the-reducer-loop", s.where, "counted once, after the reducer loop", "counted inside a loop (once per reducer)")
-    # same guard as the reducers: the first switch that REDUCE depends on must also guard the metric
-    lr = ctx.lr(body)
-    guards = []
-    for b in cfg.nodes():
-        t = body.blocks[b]["term"]
-        if t["k"] == "switch":
-            f = lr.flags.switch_flag(t)
-            if f and f[0] in body.names:
-                zero = [bb for v, bb in t["targets"] if str(v) == "0"]
-                false_edge = t["otherwise"] if f[1] else (zero[0] if zero else None)
-                if false_edge is not None and rs.bb not in cfg.reachable_from([false_edge]) and rs.bb in cfg.reachable_from([b]):
-                    guards.append((b, false_edge))
-    if not rep.floor(R, "veto guards of the reducer loop", len(guards), 1, ctx.where(body)):
+    from rules.mw import flag_guard_edges
+    body, fl = pf["before_reduce"]
+    te, fe, where = flag_guard_edges(ctx, G, body, fl)
+    if not rep.floor(R, "veto guards of the reducer loop", len(te), 1, ctx.where(body)):
         return
-    for b, fe in guards:
-        rep.check(s.bb not in cfg.reachable_from([fe]), R, "not-counted-when-vetoed", s.where, "a vetoed action is not counted as reduced", "action_reduced is also reached when a middleware vetoed the action")
-    rep.check(s.bb in cfg.reachable_from([h for h in [lp[0]]]) if lp else False, R, "counted-when-reduced", s.where, "counted on the path that ran the reducers", "not reachable from the reducer loop")
-    exits = [b for a in lp[1] for b in cfg.succ[a] if b not in lp[1]] if lp else []
-    rep.check(all(cfg.dominates(e, s.bb) or s.bb in cfg.reachable_from([e]) for e in exits) and all(s.bb not in cfg.reachable_from([e], avoid=[]) or True for e in exits), R, "counted-on-every-reduced-path", s.where, "every exit of the reducer loop leads to the count", "some exit of the reducer loop skips the count") if exits else None
-    # must-pass: from the loop exit every path to return passes the metric
-    for e in exits:
-        hit = not (set(cfg.reachable_from([e], avoid=[s.bb])) & set(cfg.exits))
-        rep.check(hit, R, "every-reduced-action-counted", ctx.where(body, e), "after the reducer loop every path passes action_reduced", "after the reducer loop a path reaches the return without counting")
+    w_veto = G.reach_corr(P.recv, avoid=P.recv, after=True, forbid_edges=te)
+    w_run = G.reach_corr(P.recv, avoid=P.recv, after=True, forbid_edges=fe)
+    rep.check(k not in w_veto, R, "not-counted-when-vetoed", s.where, "a vetoed action is not counted as reduced", "action_reduced is also reached when a middleware vetoed the action")
+    rep.check(k in w_run, R, "counted-when-reduced", s.where, "counted on the path that ran the reducers", "not reached on the path that runs the reducers")
+    # every reduced action is counted: in the non-vetoed world every path from the receive to the
+    # next receive passes the count
+    r = G.reach_corr(P.recv, avoid=set(M), after=True, forbid_edges=fe)
+    rep.check(not (r & set(P.recv)), R, "every-reduced-action-counted", s.where, "when the reducers run every path passes action_reduced before the next receive", "a reduced action can reach the next receive without being counted")
 
 
 def me4_effect_issued(ctx, rep):
